@@ -33,6 +33,8 @@ class Cfg(object):
         self.convs = ("value",)
         self.shapes = ("chain", "tree", "comb", "diamond", "stagger", "free", "free")
         self.catch_p = 3         # 1 in catch_p yields has catch=True
+        self.ok_w = 14           # weight of "ok" among item outcomes (err and unset weigh 1 each)
+        self.fault_leaf_w = 1    # weight of each failing non-item leaf kind among plain leaves (items weigh 6)
         self.empty_structs = True
         self.__dict__.update(kw)
 
@@ -84,7 +86,7 @@ def item(s, kind=None, outcome=None):
     if kind is None:
         kind = s.pick(cfg.kinds)
     if outcome is None:
-        outs = ["ok"] * 6
+        outs = ["ok"] * cfg.ok_w
         if cfg.faults:
             outs += ["err"]
             if cfg.unset:
@@ -100,11 +102,11 @@ def plain_leaf(s):
     if cfg.ditem:
         opts += ["ditem"] * 2
     if cfg.faults:
-        opts += ["errfut"]
+        opts += ["errfut"] * cfg.fault_leaf_w
         if cfg.lazy_raise:
-            opts += ["lazyraise"]
+            opts += ["lazyraise"] * cfg.fault_leaf_w
         if cfg.bad:
-            opts += ["bad"]
+            opts += ["bad"] * cfg.fault_leaf_w
     k = s.pick(opts)
     if k == "item":
         return item(s)
